@@ -34,6 +34,7 @@ import Chrono.Extracted.SerdeLits
 import Chrono.Props.C19
 import Chrono.Proofs.SerdeAnyZonedL
 import Chrono.Proofs.SerdeVisitL
+import Chrono.Proofs.SerdeTsBodiesL
 
 namespace Chrono.Props.C20
 open Chrono Chrono.M Chrono.M.Serde Chrono.Spec Chrono.Spec.Ts Chrono.Spec.Serde Chrono.Proofs.Serde
@@ -89,6 +90,58 @@ theorem literals_ok :
     SD_naive_ts_nanoseconds_option_ser = [3] ∧
     SD_naive_ts_nanoseconds_option_some = [3] := by
   decide
+
+/-- TIE OF THE SIXTEEN MODULES TO THE SOURCE (audit2 gap 2).  tools/extractors/serde_ts.py parses every body of
+every `ts_*` module on every run into a term (Extracted/SerdeBodies.lean; types in Model/SerdeTsCode.lean) that
+records each operator (`/` vs `%` vs `*`, `div_euclid` vs `rem_euclid`), each cast (`as i64` / `as u32` /
+`as u64`), the comparison (`>`), the `from_timestamp*` constructor and whether `.map(|dt| dt.naive_utc())`
+follows, the accessor `serialize` calls, `.and_utc()`, `.ok_or(..)?`, the `serialize_*` / `deserialize_*` method
+requested, the visitor handed over and the `.map(..)` that follows.  Model/SerdeTsEval.lean is a generic
+evaluator of such terms (Rust's debug integer semantics: truncating `/ %` with their panics, checked `*`,
+wrapping `as`), knowing nothing of a particular module.  For all sixteen modules the evaluator applied to the
+EXTRACTED terms is the model function the theorems below are about:
+`serialize` on every value, `deserialize` on every wire integer whose payload fits the visitor method's
+parameter type (`i64` for `visit_i64`, `u64` for `visit_u64`; for `u64` the truncating operators of the source
+coincide with the Euclidean ones of the model), the `_option` modules on every wire option; and each
+`deserialize` asks for `deserialize_i64` / `deserialize_option`, each `visit_some` for `deserialize_i64`
+(what `WInt` / `WOpt` of the model stand for).  Visitor names are resolved through the extracted
+`impl de::Visitor for …` rows, so a body that names another unit's visitor selects that unit's bodies. -/
+theorem ts_bodies_ok (tg : Target) (u : TsUnit) :
+    (∀ dt, Chrono.Proofs.SerdeTsBodies.genSerialize tg u dt = serialize tg u dt) ∧
+    (∀ o, Chrono.Proofs.SerdeTsBodies.genSerializeOption tg u o = serialize_option tg u o) ∧
+    ((Chrono.Proofs.SerdeTsBodies.deRow tg u).m = .deserialize_i64 ∧
+      (Chrono.Proofs.SerdeTsBodies.deOptRow tg u).m = .deserialize_option ∧
+      (Chrono.Proofs.SerdeTsBodies.someRow tg u).m = .deserialize_i64) ∧
+    (∀ w, Chrono.Proofs.SerdeTsBodies.WIntOk w →
+      Chrono.Proofs.SerdeTsBodies.genDeserialize tg u w = deserialize tg u w) ∧
+    (∀ w, Chrono.Proofs.SerdeTsBodies.WOptOk w →
+      Chrono.Proofs.SerdeTsBodies.genDeserializeOption tg u w = deserialize_option tg u w) :=
+  ⟨Chrono.Proofs.SerdeTsBodies.gen_serialize_eq tg u, Chrono.Proofs.SerdeTsBodies.gen_serialize_option_eq tg u,
+   Chrono.Proofs.SerdeTsBodies.methods_ok tg u, Chrono.Proofs.SerdeTsBodies.gen_deserialize_eq tg u,
+   Chrono.Proofs.SerdeTsBodies.gen_deserialize_option_eq tg u⟩
+
+/-- the 32 visitor bodies one by one: extracted term, evaluated = the model's method (for `visit_i64` on every
+integer; for `visit_u64` on every `u64`) -/
+theorem ts_visit_bodies_ok (v : Int) :
+    Chrono.Proofs.SerdeTsBodies.evalVisitRows v = Chrono.Proofs.SerdeTsBodies.modelVisitRows v ∧
+    (isU64 v → Chrono.Proofs.SerdeTsBodies.evalVisitRowsU v = Chrono.Proofs.SerdeTsBodies.modelVisitRowsU v) :=
+  Chrono.Proofs.SerdeTsBodies.visit_rows_eq v
+
+/-- non-vacuity and sensitivity of `ts_bodies_ok`: the evaluator does distinguish the operators — the
+extracted `visit_u64` of `ts_milliseconds` with `/` and `%` exchanged, or with `as u32` dropped to the wrong
+place, is a different function (it panics / answers differently on 1500), and the real one reads 1500 ms as
+1.5 s after the epoch -/
+example :
+    Code.evalVisit .u64 1500 SB_utc_ts_milliseconds_u64 = Utc.MilliSecondsTimestampVisitor.visit_u64 1500 ∧
+    Code.evalVisit .u64 1500 SB_utc_ts_milliseconds_u64 = .ok (.ok ⟨dateOfYo 1970 1, ⟨1, 500000000⟩⟩) ∧
+    Code.evalVisit .u64 1500
+      (.build .from_timestamp [(.cast (.rem .value (.lit 1000)) .i64),
+        (.cast (.mul (.div .value (.lit 1000)) (.lit 1000000)) .u32)] false)
+      ≠ Utc.MilliSecondsTimestampVisitor.visit_u64 1500 ∧
+    Code.evalVisit .i64 (-1) (.build .from_timestamp [(.div .value (.lit 1000000)),
+        (.cast (.mul (.rem .value (.lit 1000000)) (.lit 1000)) .u32)] false)
+      ≠ Utc.MicroSecondsTimestampVisitor.visit_i64 (-1) := by
+  decide +kernel
 
 /-! ## the sixteen timestamp modules: what is written -/
 
